@@ -6,16 +6,17 @@ Open Scope Z_scope.
 Definition pname (p : pid) : string := bytes_to_string [112; 48 + Z.of_nat p].     (* "p0" .. "p9" *)
 
 Definition port0 (v : option Z) : port Z expr :=
-  Build_port v v None [] Idle false.
+  Build_port v v None [] Idle false true.
 
 Definition init (vals : list (option Z)) : state Z expr :=
-  Build_state (fun p => port0 (nth p vals None)) (seq 0 (List.length vals)) None.
+  Build_state (fun p => port0 (nth p vals None)) (seq 0 (List.length vals)) None false.
 
 Section Run.
   Variable refresh : bool.
+  Variable forces_all : bool.
   Variable ids : list pid.
-  Definition hstep := step Z veqb expr pyval (feval pname ids 0) (deps pname ids) coerce refresh.
-  Definition hrun := run Z veqb expr pyval (feval pname ids 0) (deps pname ids) coerce refresh.
+  Definition hstep := step Z veqb expr pyval (feval pname ids 0) (deps pname ids) coerce refresh forces_all.
+  Definition hrun := run Z veqb expr pyval (feval pname ids 0) (deps pname ids) coerce refresh forces_all.
 
   (* index of the first event the model refuses (None = whole trace accepted), and the final state *)
   Fixpoint first_refused (s : state Z expr) (tr : list (event Z expr)) (i : nat) : option nat * state Z expr :=
@@ -26,17 +27,17 @@ Section Run.
 End Run.
 
 Definition quiescent_b (s : state Z expr) : bool :=
-  match pass s with Some _ => false | None => true end
+  match pass s with Some _ => false | None => true end && negb (force_all s)
   && forallb (fun p => let x := Hub.ports s p in
                        match evq x with [] => true | _ => false end
                        && match ph x with Idle => true | _ => false end
-                       && negb (forced x) && veqb (src x) (Hub.last x)) (all_ids s).
+                       && negb (forced x) && (negb (en x) || veqb (src x) (Hub.last x))) (all_ids s).
 
 Definition follows_b (s : state Z expr) (q : pid) : bool :=
-  match Hub.expr (Hub.ports s q) with
+  match (if en (Hub.ports s q) then Hub.expr (Hub.ports s q) else None) with
   | None => true
   | Some e =>
-      match feval pname (all_ids s) 0 e (lasts Z expr s) with
+      match (if dep_off Z expr (deps pname (all_ids s)) s e then OErr else feval pname (all_ids s) 0 e (lasts Z expr s)) with
       | OErr => true
       | OVal v => match coerce q v with
                   | OErr => true
@@ -50,7 +51,7 @@ Definition follows_b (s : state Z expr) (q : pid) : bool :=
 Definition check_case (c : list (option Z) * list (event Z expr) * list (option Z * option Z)) : Z :=
   let '(vals, tr, final) := c in
   let s0 := init vals in
-  let '(refused, s) := first_refused refresh_after_write (all_ids s0) s0 tr 0 in
+  let '(refused, s) := first_refused refresh_after_write enable_forces_all (all_ids s0) s0 tr 0 in
   match refused with
   | Some _ => 1
   | None =>
@@ -61,14 +62,14 @@ Definition check_case (c : list (option Z) * list (event Z expr) * list (option 
 
 (* the specification evaluated directly on what the implementation reports: every port with an expression follows it.
    exprs: the expression each port has at the end (None = none); final: (last read, driver) values *)
-Definition spec_case (c : list (option expr) * list (option Z * option Z)) : bool :=
-  let '(exprs, final) := c in
+Definition spec_case (c : list (option expr) * list (option Z * option Z) * list bool) : bool :=
+  let '(exprs, final, ens) := c in
   let n := List.length final in
   let s := Build_state (fun p => Build_port (snd (nth p final (None, None))) (fst (nth p final (None, None)))
-                                            (nth p exprs None) [] Idle false) (seq 0 n) None in
+                                            (nth p exprs None) [] Idle false (nth p ens true)) (seq 0 n) None false in
   forallb (follows_b s) (seq 0 n).
 
 Definition bad_model (cases : list (list (option Z) * list (event Z expr) * list (option Z * option Z))) : list Z :=
   map check_case cases.
-Definition bad_spec (cases : list (list (option expr) * list (option Z * option Z))) : list nat :=
+Definition bad_spec (cases : list (list (option expr) * list (option Z * option Z) * list bool)) : list nat :=
   mismatches spec_case cases 0.
